@@ -25,8 +25,8 @@ def variants(rng, atoms_counts, k):
             rest = items[:j] + items[j + 1:]
             out.append(["seq", [[c * 0.25, items[j][1]]] + rest + [[c * 0.75, items[j][1]]]])
         else:
-            # nested group with a multiplier
-            out.append(["seq", [[2, [[x[0] / 2.0, x[1]] for x in items]]]])
+            # a multiple of an (inspected) operand plus the rest: 2 * (half of everything)
+            out.append(["mul", 2, ["seq", [[x[0] / 2.0, x[1]] for x in items]]])
     return out
 
 
@@ -70,7 +70,7 @@ def run(ctx):
                 continue
             seen.add(a.key())
             ac.append((a, rng.choice([1, 2, 3, 4, 0.5, 1.5, 12, 22, 0.25])))
-        items.append({"id": i, "variants": variants(rng, ac, 5), "T": "T1" if i % 11 == 0 else None})
+        items.append({"id": i, "variants": variants(rng, ac, 5), "T": "T1" if i % 11 == 0 else None, "touch": i % 2 == 1})
     nb = 32
     batches = [items[i::nb] for i in range(nb)]
     outs = forkrun.map_fresh("ptv.formexec", "observe_hill", [{"items": b} for b in batches])
